@@ -49,8 +49,8 @@ func c15Exec(gojqBin string, argv []string, stdin string, timeout time.Duration)
 	cmd := exec.CommandContext(ctx, gojqBin, argv...)
 	cmd.Stdin = strings.NewReader(stdin)
 	cmd.Env = []string{"HOME=/nonexistent", "PATH=/usr/bin:/bin", "NO_COLOR=1"}
-	var so, se bytes.Buffer
-	cmd.Stdout, cmd.Stderr = &so, &se
+	so, se := &capBuffer{max: 32 << 20}, &capBuffer{max: 4 << 20}
+	cmd.Stdout, cmd.Stderr = so, se
 	err := cmd.Run()
 	obs := vlib.M{}
 	if ctx.Err() != nil {
